@@ -159,6 +159,20 @@ def run(ck):
         v = rng.choice(names)
         reqs.append(("value", "E %s;%s;%s" % (v, L.bind_str(L.random_point(rng)), f), v, f))
 
+    # quotients whose denominator depends on other variables only (the derivative object must not share
+    # sub-trees bound to the storage of the evaluator it comes from)
+    for f in ("sin(x)/(1+y*y)", "x/y", "(x*z)/(y+T)", "x/(y*y)+y/(x*x)", "exp(x)/cos(y)/z", "x**2/y**2", "(x+y)/(z-T)/(y+2)"):
+        for v in ("x", "y"):
+            reqs.append(("directed", "E %s;%s;%s" % (v, L.bind_str({"x": 1.25, "y": -0.75, "z": 2.5, "T": 0.5}), f), v, f))
+    # export clause on derivatives: the rendering of the derivative evaluated under C++ semantics has the
+    # value the derivative object returns
+    pairs = []
+    extra = []
+    for i, r in enumerate(reqs):
+        if r[1].startswith("E "):
+            extra.append(("export", "D %s;%s" % (r[2], r[3]), r[2], r[3]))
+            pairs.append((len(reqs) + len(extra) - 1, i))
+    reqs += extra
     lines = [r[1] for r in reqs]
     ck.log("%d requests generated" % len(lines))
     impl, crashes = L.run_lines(ck, exe, lines, timeout=1800)
@@ -167,6 +181,26 @@ def run(ck):
     ck.log("model answered")
     if mcr:
         ck.violation("model-crash", "the Lean driver died on a request", {"request": mcr[0][1], "stderr": mcr[0][3]}, False)
+
+    def env_of(line):
+        return {kv.split("=")[0]: L.hex_dbl(kv.split("=")[1]) for kv in line[2:].split(";")[1].split(",") if "=" in kv}
+
+    xstat = {"same": 0, "different": 0, "undecided": 0}
+    xrep = 0
+    for jd, je in pairs:
+        if max(jd, je) >= len(impl) or not impl[jd].startswith("ok ") or not impl[je].startswith("val "):
+            continue
+        env = env_of(reqs[je][1])
+        val = L.hex_dbl(impl[je].split()[1])
+        verdict, rv = L.export_verdict(impl[jd][3:], env, val)
+        xstat[verdict] += 1
+        if verdict == "different" and xrep < 3:
+            xrep += 1
+            ck.violation("export-derivative:" + L_pattern(reqs[je][3]),
+                         "differentiate(%s) of '%s': getCxxFormula() '%s' evaluates to %r at %s in C++, the derivative object's getValue() gives %r"
+                         % (reqs[je][2], reqs[je][3], impl[jd][3:140], rv, env, val),
+                         {"formula": reqs[je][3], "variable": reqs[je][2], "point": env, "exported_cxx_formula": impl[jd][3:],
+                          "value_of_exported_formula": rv, "getValue_of_derivative": val}, True)
 
     hist = {"ok": 0, "val": 0, "err": 0, "skipped-by-model": 0}
     errk = {}
@@ -209,6 +243,32 @@ def run(ck):
         if len(reported) >= 8:
             continue
         rep = {"formula": f, "variable": var, "request": line, "implementation": impl[i], "model": m}
+        if line.startswith("E ") and m.startswith("val") and (a.startswith("val") or a.startswith("err")):
+            env = env_of(line)
+            vm = fval(m)
+            va = fval(a)
+            big = va is None or not L.close(va, vm, 1e-7)
+            rep.update({"derivative_evaluated_at": env,
+                        "differentiated_evaluator_held": {k: v + 1.0 for k, v in env.items()},
+                        "code_value": va if va is not None else impl[i], "true_derivative_value(model, proved sound)": vm})
+            if big:
+                # confirm with the code's own function values (central finite difference)
+                h = 1e-6
+                pm, pp = dict(env), dict(env)
+                pm[var] = env.get(var, 0.0) - h
+                pp[var] = env.get(var, 0.0) + h
+                fa, _ = L.run_lines(ck, exe, ["V %s;%s" % (L.bind_str(pm), f), "V %s;%s" % (L.bind_str(pp), f)])
+                if fval(fa[0]) is not None and fval(fa[1]) is not None:
+                    rep["central_finite_difference_of_code_values"] = (fval(fa[1]) - fval(fa[0])) / (2 * h)
+                key = "derivative-value:" + L_pattern(f)
+                used = {k: v for k, v in env.items() if k in f}
+                what = "differentiate(%s) of '%s', evaluated at %s while the differentiated evaluator holds %s, %s; the derivative is %r" % (
+                    var, f, used, {k: v + 1.0 for k, v in used.items()},
+                    ("returns %r" % va) if va is not None else ("raises (%s)" % impl[i][4:100]), vm)
+                if key not in reported:
+                    reported.add(key)
+                    ck.violation(key, what, rep, True)
+                continue
         # locate the rule: the constructs of f, each on its own
         culprit = None
         for name, af in atoms(f, tab):
@@ -264,7 +324,7 @@ def run(ck):
         "exhaustive": False, "disagreements": disagreements,
         "traces_validated_against_impl": len(reqs) - hist["skipped-by-model"],
         "streams": {"corpus": ncorpus, "rules": sum(1 for r in reqs if r[0] == "rule"), "directed": sum(1 for r in reqs if r[0] == "directed"), "derive": n_d, "unsupported": n_u, "value": n_e},
-        "answers": hist, "error_kinds": errk, "generator": {"derive": g.stats, "value": ge.stats},
+        "answers": hist, "error_kinds": errk, "export_clause": {"pairs": len(pairs), **xstat}, "generator": {"derive": g.stats, "value": ge.stats},
         "rules_in_code": sorted(code_rules), "samples": samples,
     })
 
